@@ -6,7 +6,7 @@ import json, os, subprocess
 HERE = os.path.dirname(os.path.dirname(os.path.abspath(__file__)))
 env = dict(os.environ, GOFLAGS="-mod=mod", GOPROXY="off", GOSUMDB="off", GOTOOLCHAIN="local", VERIF_DUMP="1")
 out = ""
-for pkg in ("./props/", "./propshook/"):
+for pkg in ("./props/",):
     if not [f for f in os.listdir(os.path.join(HERE, "harness", pkg)) if f.endswith("_test.go")]:
         continue
     out += subprocess.run(["go", "test", pkg, "-tags", "verif", "-run", "TestWitnessJSON", "-v"], cwd=os.path.join(HERE, "harness"), env=env, capture_output=True, text=True).stdout
